@@ -83,6 +83,18 @@ impl SymbolTable {
         }
     }
 
+    /// The number of symbols currently defined in the global scope
+    pub fn checkpoint(&self) -> usize {
+        self.contexts[0].symbols[0].len()
+    }
+
+    /// Returns to the global scope, as it was when the given checkpoint was taken
+    pub fn rollback(&mut self, checkpoint: usize) {
+        self.contexts.truncate(1);
+        self.contexts[0].symbols.truncate(1);
+        self.contexts[0].symbols[0].truncate(checkpoint);
+    }
+
     /// Returns a mutable reference to the current context
     fn current_context(&mut self) -> &mut Context {
         self.contexts.last_mut().unwrap()
